@@ -16,7 +16,7 @@ theorem not_lockedByOther_ol {fs : FS} {pid : Nat} (h : ¬ fs.ol.lockedByOther p
 set_option hygiene false in
 macro "cleaner_fin" : tactic => `(tactic| (
     refine ⟨⟨?_, ?_, ?_, ?_, ?_, ?_, ?_, ?_, ?_, ?_, ?_, ?_, ?_, ?_, ?_, ?_, ?_, ?_, ?_⟩,
-      L.ofCleaner hr hp ?_ ?_ ?_ ?_ ?_ ?_ ?_ ?_ ?_, ⟨?_, ?_, ?_, ?_, ?_⟩, rfl, rfl, rfl, rfl⟩
+      L.ofCleaner hr hp ?_ ?_ ?_ ?_ ?_ ?_ ?_ ?_ ?_, ⟨?_, ?_, ?_, ?_, ?_, ?_⟩, rfl, rfl, rfl, rfl⟩
     all_goals first
       | (intros; assumption)
       | (simp_all [pcDone, File.closeBy_linked, File.closeBy_perm]; done)
@@ -26,7 +26,7 @@ macro "cleaner_fin" : tactic => `(tactic| (
 set_option hygiene false in
 macro "cleaner_fin_norm" : tactic => `(tactic| (
     refine ⟨⟨?_, ?_, ?_, ?_, ?_, ?_, ?_, ?_, ?_, ?_, ?_, ?_, ?_, ?_, ?_, ?_, ?_, ?_, ?_⟩,
-      L.ofCleaner (e2.trans hr) (e1 ▸ hp) ?_ ?_ (e3 ▸ l3) ?_ ?_ ?_ ?_ (e4 ▸ l8) (e4 ▸ l9), ⟨?_, ?_, ?_, ?_, ?_⟩, rfl, rfl, e1, e2⟩
+      L.ofCleaner (e2.trans hr) (e1 ▸ hp) ?_ ?_ (e3 ▸ l3) ?_ ?_ ?_ ?_ (e4 ▸ l8) (e4 ▸ l9), ⟨?_, ?_, ?_, ?_, ?_, ?_⟩, rfl, rfl, e1, e2⟩
     all_goals first
       | (intros; assumption)
       | (simp_all [pcDone]; done)
@@ -94,9 +94,10 @@ theorem cleaner_step_explicit {fs fs' : FS} {t t' : Th} {s : String} (hG : G fs)
       simp only [Option.some.injEq, Prod.mk.injEq] at h
       obtain ⟨rfl, rfl, _⟩ := h
       refine ⟨⟨?_, ?_, ?_, ?_, ?_, ?_, ?_, ?_, ?_, ?_, ?_, ?_, ?_, ?_, ?_, ?_, ?_, ?_, ?_⟩,
-        L.ofCleaner hr hp ?_ ?_ ?_ ?_ ?_ ?_ ?_ ?_ ?_, ⟨?_, ?_, ?_, ?_, ?_⟩, rfl, rfl, rfl, rfl⟩
+        L.ofCleaner hr hp ?_ ?_ ?_ ?_ ?_ ?_ ?_ ?_ ?_, ⟨?_, ?_, ?_, ?_, ?_, ?_⟩, rfl, rfl, rfl, rfl⟩
       case refine_14 => intro p hpp; simp at hpp; subst hpp; exact ⟨hod, hp⟩
       case refine_31 => intro p hne hpp; exact absurd (hnot p hpp) hne
+      case refine_34 => intro p hpp; simp at hpp; exact Or.inl hpp.symm
       all_goals first
         | (intros; assumption)
         | (simp_all [pcDone]; done)
